@@ -53,3 +53,115 @@ for _key, _extra in (("acryo._utils:nd_butterworth_weight", {}),
             },
             "dc_gain_one": "result[0, 0, 0] == 1",
         }
+
+
+# ---------------------------------------------------------------------------
+def wspec(idx, shape, cutoff, order):
+    return 1 / (1 + pw(q2_spec(idx, shape, cutoff), order))
+
+
+_H["wspec"] = wspec
+from pyvc.stubs import _sqrt
+_H["sqrt"] = _sqrt
+_IMG = T.Arr(3, "real")
+_NATIVE_REAL = ("shape_eq(result, img) and np.allclose(result, np.fft.irfftn(_native_weight(img.shape, cutoff, order, True) "
+                "* np.fft.rfftn(img), s=img.shape), atol=1e-3)")
+_NATIVE_FT = ("shape_eq(result, img) and np.allclose(result, _native_weight(img.shape, cutoff, order, False) "
+              "* np.fft.fftn(img), atol=1e-2)")
+
+
+def _native_weight(shape, cutoff, order, real):
+    import numpy as np
+    grids = np.meshgrid(*[np.fft.fftfreq(n) for n in shape], indexing="ij")
+    q2 = sum((g / cutoff) ** 2 for g in grids)
+    w = 1 / (1 + q2 ** order)
+    if real:
+        w = w[..., : shape[-1] // 2 + 1]
+    return w
+
+
+_NH = dict(_native_weight=_native_weight)
+
+for _key, _pre in (("acryo._utils:lowpass_filter", {}),
+                   ("acryo.backend._bandpass:lowpass_filter", {"backend": T.Backend()})):
+    @contract(_key, props=["C16"])
+    class lowpass_filter:
+        """Real-space variant.  Filtering branch: the result is the inverse half-spectrum transform, *with the input's
+        shape*, of (Butterworth weight x half-spectrum of the input).  Identity branch: the input itself."""
+        params = dict(**_pre, img=_IMG, cutoff=T.Real(), order=T.OneOf(1, 2, 3))
+        helpers = _H
+        native_helpers = dict(_NH)
+        native_call = "np.asarray(_mod.lowpass_filter(**args))"
+        result = lambda interp, bound: fresh_array("lowpassed", 3, "real", path=interp.path)
+        call_ensures = ["same_shape"]      # the value clauses mention result identity / ghosts: not exported to callers
+        native = {"same_shape": "shape_eq(result, img)", "filtered": _NATIVE_REAL,
+                  "identity": "implies(cutoff <= 0 or cutoff >= 0.5 * sqrt(3), np.allclose(result, img))"}
+        ensures = {
+            "same_shape": "shape_eq(result, img)",
+            "identity": "implies(cutoff <= 0 or cutoff >= 0.5 * sqrt(3), result is img)",
+            "filtered": "implies(not (cutoff <= 0 or cutoff >= 0.5 * sqrt(3)), made_by(result, 'irfftn') and "
+                        "forall(lambda i, j, k: fft_arg(result)[i, j, k] == wspec((i, j, k), img.shape, cutoff, order) * "
+                        "fft_of(img, 'rfftn')[i, j, k], (0, img.shape[0]), (0, img.shape[1]), (0, img.shape[2] // 2 + 1)))",
+        }
+
+for _key, _pre in (("acryo._utils:lowpass_filter_ft", {}),
+                   ("acryo.backend._bandpass:lowpass_filter_ft", {"backend": T.Backend()})):
+    @contract(_key, props=["C16"])
+    class lowpass_filter_ft:
+        """Fourier-space variant: full spectrum of the input times the full-grid Butterworth weight (identity branch:
+        the plain spectrum).  With the trusted lemma fftn(irfftn(w_half * rfftn x, s)) = w_full * fftn x for real x
+        this is the transform of the real-space variant."""
+        params = dict(**_pre, img=_IMG, cutoff=T.Real(), order=T.OneOf(1, 2, 3))
+        helpers = _H
+        native_helpers = dict(_NH)
+        native_call = "np.asarray(_mod.lowpass_filter_ft(**args))"
+        result = lambda interp, bound: fresh_array("lowpassed_ft", 3, "real", path=interp.path)
+        call_ensures = ["same_shape"]
+        native = {"same_shape": "shape_eq(result, img)", "weighted": _NATIVE_FT,
+                  "identity": "implies(cutoff <= 0 or cutoff >= 0.5 * sqrt(3), np.allclose(result, np.fft.fftn(img), atol=1e-2))"}
+        ensures = {
+            "same_shape": "shape_eq(result, img)",
+            "identity": "implies(cutoff <= 0 or cutoff >= 0.5 * sqrt(3), result is fft_of(img, 'fftn'))",
+            "weighted": "implies(not (cutoff <= 0 or cutoff >= 0.5 * sqrt(3)), "
+                        "forall(lambda i, j, k: result[i, j, k] == wspec((i, j, k), img.shape, cutoff, order) * "
+                        "fft_of(img, 'fftn')[i, j, k], (0, img.shape[0]), (0, img.shape[1]), (0, img.shape[2])))",
+        }
+
+
+# ---------------------------------------------------------------------------
+# entry points that must reach the verified implementations with unchanged arguments
+_BK = "acryo.backend._bandpass:"
+
+
+@contract("acryo.backend._api:Backend.lowpass_filter_ft", props=["C16"])
+class backend_lowpass_ft:
+    params = dict(self=T.Backend(), img=_IMG, cutoff=T.Real(), order=T.OneOf(1, 2, 3))
+    native_call = "np.asarray(args['self'].lowpass_filter_ft(args['img'], args['cutoff'], args['order']))"
+    native = {"delegates": "np.allclose(result, _mod._bandpass.lowpass_filter_ft(self, img, cutoff, order), atol=1e-3)"}
+    ensures = {"delegates": f"result is called('{_BK}lowpass_filter_ft') and "
+                            f"called_args('{_BK}lowpass_filter_ft')['img'] is img and "
+                            f"called_args('{_BK}lowpass_filter_ft')['cutoff'] == cutoff and "
+                            f"called_args('{_BK}lowpass_filter_ft')['order'] == order"}
+
+
+@contract("acryo.backend._api:Backend.lowpass_filter", props=["C16"])
+class backend_lowpass:
+    params = dict(self=T.Backend(), img=_IMG, cutoff=T.Real(), order=T.OneOf(1, 2, 3))
+    native_call = "np.asarray(args['self'].lowpass_filter(args['img'], args['cutoff'], args['order']))"
+    native = {"delegates": "np.allclose(result, _mod._bandpass.lowpass_filter(self, img, cutoff, order), atol=1e-3)"}
+    ensures = {"delegates": f"result is called('{_BK}lowpass_filter') and "
+                            f"called_args('{_BK}lowpass_filter')['img'] is img and "
+                            f"called_args('{_BK}lowpass_filter')['cutoff'] == cutoff and "
+                            f"called_args('{_BK}lowpass_filter')['order'] == order"}
+
+
+@contract("acryo.pipe._transform:lowpass_filter", props=["C16"])
+class pipe_lowpass:
+    """the pipeline converter (undecorated body; the currying decorator is C19's subject)"""
+    params = dict(img=_IMG, scale=T.Real(lo=0), cutoff=T.Real(), order=T.OneOf(1, 2, 3))
+    native_call = "np.asarray(_mod.lowpass_filter(args['cutoff'], args['order'])(args['img'], args['scale']))"
+    native = {"delegates": "np.allclose(result, __import__('acryo')._utils.lowpass_filter(img, cutoff, order), atol=1e-3)"}
+    ensures = {"delegates": "result is called('acryo._utils:lowpass_filter') and "
+                            "called_args('acryo._utils:lowpass_filter')['img'] is img and "
+                            "called_args('acryo._utils:lowpass_filter')['cutoff'] == cutoff and "
+                            "called_args('acryo._utils:lowpass_filter')['order'] == order"}
